@@ -1,0 +1,36 @@
+//go:build verif
+
+package transport_controller
+
+import (
+	"sync/atomic"
+
+	"github.com/aperturerobotics/bifrost/link"
+	"github.com/aperturerobotics/bifrost/peer"
+)
+
+// verifOps counts completed HandleLinkEstablished / HandleLinkLost critical sections.
+var verifOps atomic.Int64
+
+// verifOpDone records that a transport handler critical section has completed.
+func verifOpDone() { verifOps.Add(1) }
+
+// VerifOpsDone returns the number of completed handler critical sections.
+func VerifOpsDone() int64 { return verifOps.Load() }
+
+// VerifSnapshot returns the link tables: links by uuid, and links by peer id.
+func (c *Controller) VerifSnapshot() (map[uint64]link.Link, map[peer.ID][]link.Link) {
+	byUUID := make(map[uint64]link.Link)
+	byPeer := make(map[peer.ID][]link.Link)
+	c.bcast.HoldLock(func(_ func(), _ func() <-chan struct{}) {
+		for k, el := range c.links {
+			byUUID[k] = el.lnk
+		}
+		for p, els := range c.linksByPeerID {
+			for _, el := range els {
+				byPeer[p] = append(byPeer[p], el.lnk)
+			}
+		}
+	})
+	return byUUID, byPeer
+}
